@@ -65,6 +65,8 @@ def main():
         ('GivenOffsetsKept', lambda e: e['ev'] == 'given', lambda e: upd(e, goff=[bump(v, 1e-6) for v in e['goff']])),
         ('DefaultIsOn', lambda e: e['ev'] == 'eval', lambda e: upd(e, Hdef=[bump2(e['Hdef'][0]), e['Hdef'][1]])),
         ('Repeatable', lambda e: e['ev'] == 'eval', lambda e: upd(e, Hrep=[e['Hrep'][0], bump2(e['Hrep'][1])])),
+        ('SpeciesKwargsRouting', lambda e: e['ev'] == 'eval',
+         lambda e: upd(e, Hks=[[e['Hks'][0][0], bump2(e['Hks'][0][1])], e['Hks'][1]])),
         ('VerboseSlot', lambda e: e['ev'] == 'eval', lambda e: upd(e, ver=[bump2(e['ver'][0]), e['ver'][1]])),
         ('DirectCalls', lambda e: e['ev'] == 'eval' and e['HnoT'][0] != 0,
          lambda e: upd(e, HnoT=bump(e['HnoT'], 1e-3))),
